@@ -147,14 +147,16 @@ func (e *env20) fingerprint() uint64 {
 }
 
 type trun struct {
-	pool   *sim.Pool
-	obs    []uint64
-	notes  []string
-	marks  []uint64    // simulated time (relative to the task's start) at which each BackPropagate call began
-	rmarks []uint64    // simulated time at which each random-constructor / Init call began
-	rngFP  []uint64    // value fingerprints of the tensors returned by random constructors (>= 4 elements)
-	rngSeq [][]float64 // first elements of each random tensor, normalised to the standard uniform / normal
-	bad    string      // a random constructor returned values outside its configured support
+	pool    *sim.Pool
+	obs     []uint64
+	notes   []string
+	marks   []uint64    // simulated time (relative to the task's start) at which each BackPropagate call began
+	rmarks  []uint64    // simulated time at which each random-constructor / Init call began
+	rngFP   []uint64    // value fingerprints of the tensors returned by random constructors (>= 4 elements)
+	rngSeq  [][]float64 // first elements of each random tensor, normalised to the standard uniform / normal
+	bad     string      // a random constructor returned values outside its configured support
+	badCall string      // a rejected call misbehaved (accepted, result, changed words)
+	held    []heldErr   // error values of rejected calls, held until the task ends
 }
 
 // runTask executes one task's program. inCall, when non-nil, is toggled
@@ -211,6 +213,18 @@ func runTask(e *env20, steps []sim.Step, inCall *bool) *trun {
 			*inCall = true
 		}
 		switch st.Op {
+		case "bad":
+			// a rejected call with a shared or private tensor as operand
+			if badIndexOf(st.Tag) < 0 {
+				err = fmt.Errorf("dangling")
+				break
+			}
+			oracle, msg, errText, he := badVerdict(st.Tag, st.N, get(0))
+			if oracle != "" && tr.badCall == "" {
+				tr.badCall = fmt.Sprintf("%s: %s", oracle, msg)
+			}
+			tr.held = append(tr.held, heldErr{he, errText, st.Tag})
+			h = h.Str(errText)
 		case "fcforward":
 			if e.fc == nil || get(0) == nil {
 				err = fmt.Errorf("dangling")
@@ -377,7 +391,22 @@ func runTask(e *env20, steps []sim.Step, inCall *bool) *trun {
 		sim.Resume()
 		tr.obs = append(tr.obs, h.Sum())
 	}
+	for _, he := range tr.held {
+		if he.err != nil && he.err.Error() != he.text && tr.badCall == "" {
+			tr.badCall = fmt.Sprintf("rejected-call-error-changed: the error value of a rejected call (%s) read %q when it was returned and reads %q when the task ends", he.where, he.text, he.err.Error())
+		}
+	}
 	return tr
+}
+
+// c20badOracle: rejected calls stay rejected calls under every interleaving.
+func c20badOracle(runs []*trun) string {
+	for i, r := range runs {
+		if r != nil && r.badCall != "" {
+			return fmt.Sprintf("task %d: %s", i, r.badCall)
+		}
+	}
+	return ""
 }
 
 func tasksOf(sc *sim.Scenario) [][]sim.Step {
@@ -563,6 +592,7 @@ func (c20) Generate(r *sim.Rand, tier string) *sim.Scenario {
 			class = 2
 		}
 		o := genOpts{MaxElems: 36, MaxRank: 3, MaxDim: 3, Comparison: true, PSynth: 0.3, PTracked: 0.7, Client: tk}
+		badCalls := r.Bool(0.4)
 		usable := func() []avail {
 			var u []avail
 			for _, a := range av {
@@ -627,6 +657,12 @@ func (c20) Generate(r *sim.Rand, tier string) *sim.Scenario {
 		for k, fails := 0, 0; k < n && fails < 40; {
 			x := r.Intn(100)
 			switch {
+			case badCalls && r.Bool(0.07): // fault invalid-call: a rejected call on a shared or private tensor
+				u := usable()
+				a := u[r.Intn(len(u))]
+				tag, bn := pickBad(r, a.Shape)
+				steps = append(steps, sim.Step{C: tk, Op: "bad", In: []int{a.ID}, Tag: tag, N: bn, Out: -1})
+				k++
 			case x < 10 || (class == 1 && x < 25): // private leaf
 				shape := base
 				if r.Bool(0.4) {
@@ -1078,6 +1114,11 @@ func (prop c20) executeOne(sc *sim.Scenario) *sim.Outcome {
 	}
 	s.Run(first)
 	out.Faults["preemption"] += len(s.Switches)
+	for _, st := range sc.Steps {
+		if st.Op == "bad" {
+			out.Faults["invalid-call/"+st.Tag]++
+		}
+	}
 	for _, sw := range s.Switches {
 		lh = lh.U64(sw.Step).Int(sw.Site).Int(sw.From).Int(sw.To)
 		sig = sig.U64(sw.Step).Int(sw.Site).Int(sw.From).Int(sw.To)
@@ -1144,6 +1185,10 @@ func (prop c20) executeOne(sc *sim.Scenario) *sim.Outcome {
 			}
 		}
 	}
+	if v := c20badOracle(runs); v != "" {
+		out.Fail("rejected-call", "%s", v)
+		return fin()
+	}
 	if v := c20rngOracle(runs); v != "" {
 		out.Fail("random-constructor", "%s", v)
 		return fin()
@@ -1206,6 +1251,11 @@ func (prop c20) executeRace(sc *sim.Scenario) *sim.Outcome {
 		close(startCh)
 		wg.Wait()
 		out.Faults["real-parallel-execution"]++
+		for _, st := range sc.Steps {
+			if st.Op == "bad" {
+				out.Faults["invalid-call (stage B)/"+st.Tag]++
+			}
+		}
 		for i := range tasks {
 			if panics[i] != nil {
 				out.Fail("panic", "stage B: task %d panicked when run in parallel: %v", i, panics[i])
@@ -1225,6 +1275,10 @@ func (prop c20) executeRace(sc *sim.Scenario) *sim.Outcome {
 					return finish(out, lh, sig, 0)
 				}
 			}
+		}
+		if v := c20badOracle(runs); v != "" {
+			out.Fail("rejected-call", "stage B: %s", v)
+			return finish(out, lh, sig, 0)
 		}
 		if v := c20rngOracle(runs); v != "" {
 			out.Fail("random-constructor", "stage B: %s", v)
